@@ -4,7 +4,8 @@
   all limb counts (list lengths ≥ 1) and all operand values; statements are on `toInt` with Lean's `Int`.
   `wrapS n x` = `x mod 2^(64 n)` re-signed; `InRange n x` = `x ∈ [MIN, MAX]` of an `n`-limb `Int`.
 -/
-import CB.Lemmas.C13Int
+import CB.Lemmas.C13Mul
+import CB.Lemmas.C13Resize
 set_option linter.unusedVariables false
 namespace CB.P13
 open CB CB.SInt
@@ -178,26 +179,166 @@ theorem neg_inRange_iff {n : Nat} {x : Int} (hx : InRange n x) :
 /-- T13.3 `wrapping_neg_if` (the `Uint` conditional negation reused by `Int`): `self` or `-self`
     modulo `2^BITS` re-signed. -/
 theorem wrapping_neg_if_spec {a : List Nat} (p : Bool) (ha : WF a) (hne : a ≠ []) :
-    toInt (iWrappingNegIf a (mask p)) = if p then wrapS a.length (- toInt a) else toInt a := by
-  obtain ⟨w1, w2, w3⟩ := wrappingNegIf_spec p ha
-  have hM : (0 : Int) < ((B ^ a.length : Nat) : Int) := by exact_mod_cast Bpow_pos' a.length
-  have hva := val_lt ha
-  cases p
-  · have : wrappingNegIf a (mask false) = a := val_inj w1 ha w2 (by simpa using w3)
-    show toInt (wrappingNegIf a (mask false)) = _
-    rw [this]; simp
-  · simp only [if_true] at w3 ⊢
-    have c1 := toInt_cases (wrappingNegIf a (mask true))
-    have c2 := toInt_cases a
-    rw [w2, w3] at c1
-    have hmod : (B ^ a.length - val a) % B ^ a.length =
-        if val a = 0 then 0 else B ^ a.length - val a := by
-      by_cases hz : val a = 0
-      · rw [hz]; simp
-      · rw [if_neg hz, Nat.mod_eq_of_lt (by omega)]
-    rw [hmod] at c1
-    unfold wrapS
-    have rc := resign_cases (M := ((B ^ a.length : Nat) : Int)) (s := - toInt a) hM (by omega)
-    show toInt (wrappingNegIf a (mask true)) = _
-    generalize B ^ a.length = M at *
-    split at c1 <;> omega
+    toInt (iWrappingNegIf a (mask p)) = if p then wrapS a.length (- toInt a) else toInt a :=
+  wrappingNegIf_toInt p ha
+
+/-! ### T13.4 sign predicates, MIN / MAX, sign–magnitude decomposition -/
+
+/-- T13.4 `is_negative`, `is_positive`, `is_min`, `is_max` are exact. -/
+theorem sign_predicates_spec {a : List Nat} (ha : WF a) (hne : a ≠ []) :
+    isNegative a = mask (decide (toInt a < 0)) ∧ isPositive a = mask (decide (0 < toInt a)) ∧
+    isMin a = mask (decide (2 * toInt a = -((B ^ a.length : Nat) : Int))) ∧
+    isMax a = mask (decide (2 * toInt a = ((B ^ a.length : Nat) : Int) - 2)) :=
+  ⟨isNegative_toInt ha, isPositive_spec ha, isMin_spec ha hne, isMax_spec ha hne⟩
+
+/-- the constants: `toInt MIN = -2^(BITS-1)`, `toInt MAX = 2^(BITS-1) - 1` -/
+theorem min_max_values (k : Nat) :
+    2 * toInt (intMin (k + 1)) = -((B ^ (k + 1) : Nat) : Int) ∧
+    2 * toInt (intMax (k + 1)) = ((B ^ (k + 1) : Nat) : Int) - 2 := by
+  obtain ⟨m1, m2, m3⟩ := intMin_spec k
+  obtain ⟨x1, x2, x3⟩ := intMax_spec k
+  have c1 := toInt_cases (intMin (k + 1))
+  have c2 := toInt_cases (intMax (k + 1))
+  rw [m2] at c1; rw [x2] at c2
+  generalize B ^ (k + 1) = M at *
+  constructor <;> omega
+
+/-- T13.4 `abs_sign` / `abs`: the magnitude is `|self|` as an unsigned value (`2^(BITS-1)` for `MIN`), the
+    sign flag is `self < 0`. -/
+theorem abs_sign_spec {a : List Nat} (ha : WF a) :
+    val (absSign a).1 = (toInt a).natAbs ∧ (absSign a).2 = mask (decide (toInt a < 0)) ∧
+    WF (absSign a).1 ∧ (absSign a).1.length = a.length := by
+  obtain ⟨h1, h2, h3, h4⟩ := absSign_spec ha
+  exact ⟨by omega, h3, h1, h2⟩
+
+/-- T13.4 `new_from_abs_sign`: `some` exactly when `±abs ∈ [MIN, MAX]` — magnitude `2^(BITS-1)` is accepted
+    with the negative sign only, a negative zero is `0` — and then the value is `±abs`. -/
+theorem new_from_abs_sign_spec {abs : List Nat} (p : Bool) (h : WF abs) (hne : abs ≠ []) :
+    (newFromAbsSign abs (mask p)).2 =
+      mask (decide (InRange abs.length (if p then -(val abs : Int) else (val abs : Int)))) ∧
+    (InRange abs.length (if p then -(val abs : Int) else (val abs : Int)) →
+      toInt (newFromAbsSign abs (mask p)).1 = (if p then -(val abs : Int) else (val abs : Int))) := by
+  obtain ⟨h1, h2⟩ := newFromAbsSign_spec p h hne
+  exact ⟨h1, fun hin => by rw [h2, wrapS_of_inRange hin]⟩
+
+/-- reconstruction: `new_from_abs_sign(abs_sign(x)) = x` for every `x` including `MIN` -/
+theorem abs_sign_roundtrip {a : List Nat} (ha : WF a) (hne : a ≠ []) :
+    (newFromAbsSign (absSign a).1 (absSign a).2).2 = WMAX ∧
+    toInt (newFromAbsSign (absSign a).1 (absSign a).2).1 = toInt a := by
+  obtain ⟨w, l, s, c, _, _⟩ := mag_view ha
+  have lne : (absSign a).1 ≠ [] := by
+    intro h; rw [h] at l; exact hne (List.length_eq_zero_iff.mp l.symm)
+  obtain ⟨h1, h2⟩ := new_from_abs_sign_spec (decide (toInt a < 0)) w lne
+  have hr := toInt_inRange ha
+  have hx : (if decide (toInt a < 0) = true then -((val (absSign a).1 : Nat) : Int)
+      else ((val (absSign a).1 : Nat) : Int)) = toInt a := by
+    rcases c with ⟨c1, c2⟩ | ⟨c1, c2⟩
+    · simp only [c1, decide_true, if_true]; omega
+    · have : ¬ toInt a < 0 := by omega
+      simp only [this, decide_false, Bool.false_eq_true, if_false]; omega
+  rw [s]
+  rw [hx, l] at h1 h2
+  exact ⟨by rw [h1]; simp [hr, mask], h2 hr⟩
+
+/-! ### T13.5 products through magnitudes (unsigned product at value level; exactness of mul is C03) -/
+
+/-- T13.5 `split_mul`: `lo + 2^BITS·hi = |a|·|b|`, `negate` = signs differ. Mixed widths. -/
+theorem split_mul_spec {a b : List Nat} (ha : WF a) (hb : WF b) :
+    val (iSplitMul a b).1 + B ^ a.length * val (iSplitMul a b).2.1 = (toInt a).natAbs * (toInt b).natAbs ∧
+    (iSplitMul a b).1.length = a.length ∧ (iSplitMul a b).2.1.length = b.length ∧
+    (iSplitMul a b).2.2 = mask (decide (¬(toInt a < 0 ↔ toInt b < 0))) := by
+  obtain ⟨_, h2, _, h4, h5, h6⟩ := splitMul_spec ha hb
+  exact ⟨h5, h2, h4, h6⟩
+
+/-- T13.5 `widening_mul`: the exact product in `LIMBS + RHS_LIMBS` limbs. Mixed widths. -/
+theorem widening_mul_spec {a b : List Nat} (ha : WF a) (hb : WF b) :
+    toInt (iWideningMul a b) = toInt a * toInt b ∧ (iWideningMul a b).length = a.length + b.length :=
+  wideningMul_spec ha hb
+
+/-- T13.5 `checked_mul` (`CheckedMul<Int<RHS>>`, `*`, `Checked<Int> *`): `some` exactly when the true product
+    lies in `[MIN, MAX]` of the LEFT operand's width (so `MIN·1`, `(-2^k)·2^(BITS-1-k)` are accepted and
+    `2^k·2^(BITS-1-k)`, `MIN·(-1)` are not); then the value is the product. Mixed widths. -/
+theorem checked_mul_spec {a b : List Nat} (ha : WF a) (hb : WF b) (hne : a ≠ []) :
+    (iCheckedMul a b).2 = mask (decide (InRange a.length (toInt a * toInt b))) ∧
+    (InRange a.length (toInt a * toInt b) → toInt (iCheckedMul a b).1 = toInt a * toInt b) :=
+  checkedMul_spec ha hb hne
+
+/-- T13.5 `split_mul_uint`, `split_mul_uint_right` -/
+theorem split_mul_uint_spec {a b : List Nat} (ha : WF a) (hb : WF b) :
+    val (iSplitMulUint a b).1 + B ^ a.length * val (iSplitMulUint a b).2.1 = (toInt a).natAbs * val b ∧
+    (iSplitMulUint a b).2.2 = mask (decide (toInt a < 0)) ∧
+    val (iSplitMulUintRight a b).1 + B ^ b.length * val (iSplitMulUintRight a b).2.1 = (toInt a).natAbs * val b ∧
+    (iSplitMulUintRight a b).2.2 = mask (decide (toInt a < 0)) := by
+  obtain ⟨h1, _, _, h4, h5, _, _, h8⟩ := splitMulUint_spec ha hb
+  exact ⟨h1, h4, h5, h8⟩
+
+/-- T13.5 `widening_mul_uint` -/
+theorem widening_mul_uint_spec {a b : List Nat} (ha : WF a) (hb : WF b) :
+    toInt (iWideningMulUint a b) = toInt a * (val b : Int) ∧
+    (iWideningMulUint a b).length = a.length + b.length := wideningMulUint_spec ha hb
+
+/-- T13.5 `checked_mul` by a `Uint` (`CheckedMul<Uint<RHS>>`, `*`): range of the LEFT (signed) operand -/
+theorem checked_mul_uint_spec {a b : List Nat} (ha : WF a) (hb : WF b) (hne : a ≠ []) :
+    (iCheckedMulUint a b).2 = mask (decide (InRange a.length (toInt a * (val b : Int)))) ∧
+    (InRange a.length (toInt a * (val b : Int)) → toInt (iCheckedMulUint a b).1 = toInt a * (val b : Int)) :=
+  checkedMulUint_spec ha hb hne
+
+/-- T13.5 `checked_mul_uint_right`: range of an `Int` with the width of the RIGHT (unsigned) operand -/
+theorem checked_mul_uint_right_spec {a b : List Nat} (ha : WF a) (hb : WF b) (hne : b ≠ []) :
+    (iCheckedMulUintRight a b).2 = mask (decide (InRange b.length (toInt a * (val b : Int)))) ∧
+    (InRange b.length (toInt a * (val b : Int)) →
+      toInt (iCheckedMulUintRight a b).1 = toInt a * (val b : Int)) :=
+  checkedMulUintRight_spec ha hb hne
+
+/-- T13.5 squares (results are unsigned): widening = `self²`; checked `some` iff `self² < 2^BITS`;
+    wrapping = `self² mod 2^BITS`; saturating = `min(self², 2^BITS - 1)`. -/
+theorem squares_spec {a : List Nat} (ha : WF a) :
+    val (iWideningSquare a) = (toInt a).natAbs * (toInt a).natAbs ∧
+    (iWideningSquare a).length = a.length + a.length ∧
+    (iCheckedSquare a).2 = mask (decide ((toInt a).natAbs * (toInt a).natAbs < B ^ a.length)) ∧
+    ((toInt a).natAbs * (toInt a).natAbs < B ^ a.length →
+      val (iCheckedSquare a).1 = (toInt a).natAbs * (toInt a).natAbs) ∧
+    val (iWrappingSquare a) = (toInt a).natAbs * (toInt a).natAbs % B ^ a.length ∧
+    val (iSaturatingSquare a) = min ((toInt a).natAbs * (toInt a).natAbs) (B ^ a.length - 1) :=
+  CB.SInt.squares_spec ha
+
+/-! ### T13.6 resize and conversions from primitives -/
+
+/-- T13.6 `resize::<T>`: the value modulo `2^(64·T)` re-signed (truncation), and the value itself when
+    `T ≥ LIMBS` (sign extension). -/
+theorem resize_spec {a : List Nat} (ha : WF a) (t : Nat) :
+    (iResize a t).length = t ∧ WF (iResize a t) ∧ toInt (iResize a t) = wrapS t (toInt a) ∧
+    (a.length ≤ t → toInt (iResize a t) = toInt a) := by
+  obtain ⟨h1, h2, h3⟩ := CB.SInt.resize_spec ha t
+  exact ⟨h2, h1, h3, fun hle => resize_widen ha hle⟩
+
+/-- T13.6 `from_i8 / from_i16 / from_i32 / from_i64` (and `From<iN>`): the primitive's value for every
+    `LIMBS ≥ 1`; the primitive is given by its `k`-bit pattern `x`. -/
+theorem from_prim_spec {k x n : Nat} (hk : k = 8 ∨ k = 16 ∨ k = 32 ∨ k = 64) (hx : x < 2 ^ k) (hn : 0 < n) :
+    toInt (iFromPrim k x n) = sprim k x ∧ (iFromPrim k x n).length = n :=
+  fromPrim_spec (by omega) (by omega) hx hn
+
+/-- T13.6 `from_i128` (and `From<i128>`): the primitive's value for every `LIMBS ≥ 2`. -/
+theorem from_i128_spec {x n : Nat} (hx : x < 2 ^ 128) (hn : 2 ≤ n) :
+    toInt (iFromI128 x n) = sprim 128 x ∧ (iFromI128 x n).length = n := fromI128_spec hx hn
+
+/-! ### non-vacuity: the hypotheses are met by concrete non-trivial operands, and the boundary cases
+    named by the property evaluate as stated (two limbs: `MIN = [0, HALF]`, `MAX = [WMAX, WMAX/2]`) -/
+example : WF [0, HALF] ∧ WF [WMAX, WMAX / 2] ∧ [0, HALF] ≠ [] := by
+  refine ⟨?_, ?_, by simp⟩ <;> intro x hx <;> simp at hx <;> rcases hx with h | h <;> subst h <;> decide
+example : toInt [0, HALF] = -170141183460469231731687303715884105728 := by decide
+example : iOverflowingAdd [0, HALF] [WMAX, WMAX] = ([WMAX, WMAX / 2], WMAX) := by decide      -- MIN + (-1) overflows
+example : iOverflowingAdd [0, HALF] [WMAX, WMAX / 2] = ([WMAX, WMAX], 0) := by decide          -- MIN + MAX = -1
+example : iCheckedSub [0, 0] [0, HALF] = ([0, HALF], 0) := by decide                           -- 0 - MIN: none
+example : iOverflowingNeg [0, HALF] = ([0, HALF], WMAX) := by decide                           -- -MIN overflows
+example : newFromAbsSign [0, HALF] WMAX = ([0, HALF], WMAX) := by decide                       -- -(2^127) = MIN
+example : (newFromAbsSign [0, HALF] 0).2 = 0 := by decide                                      -- +2^127: none
+example : newFromAbsSign [0, 0] WMAX = ([0, 0], WMAX) := by decide                             -- negative zero
+example : iCheckedMul [0, HALF] [1, 0] = ([0, HALF], WMAX) := by decide                        -- MIN * 1
+example : (iCheckedMul [0, HALF] [WMAX, WMAX]).2 = 0 := by decide                              -- MIN * -1: none
+example : iCheckedMul [0, B - 2] [HALF / 2] = ([0, HALF], WMAX) := by decide                   -- (-2^65) * 2^62 = MIN (mixed widths)
+example : (iCheckedMul [0, 2] [HALF / 2]).2 = 0 := by decide                                   -- 2^65 * 2^62 = 2^127: none
+example : iResize [5, HALF] 1 = [5] ∧ iResize [B - 5] 3 = [B - 5, WMAX, WMAX] := by decide
+example : iFromPrim 8 0x80 2 = [B - 128, WMAX] := by decide                                    -- i8::MIN
+
+end CB.P13
